@@ -47,6 +47,25 @@ def run(ctx):
             ctx.nontrivial.add(("scan", i))
         if not (fresh[i] == again[i] == again2[i]):
             ctx.violation("scan-history", [d], "scan on a re-used scanner after other scans differs from a fresh scanner")
+    # history with different depth limits: every (input, depth) tree must equal the one a FRESH process computes
+    hist_inputs = [b"get http://example.com/dl?x=aGVsbG8gd29ybGQgaGVsbG8gd29ybGQgaGVsbG8gd29ybGQ= now", inputs[1], inputs[3]]
+    order = [2, 6, 1, 10, 3, 1]
+    code2 = ("import sys,json;from multidecoder.multidecoder import Multidecoder;from multidecoder.json_conversion import tree_to_json;"
+             "d=bytes.fromhex(sys.argv[1]);k=int(sys.argv[2]);print(tree_to_json(Multidecoder().scan(d,k)))")
+    from multidecoder.json_conversion import tree_to_json
+    for d in hist_inputs:
+        got = {}
+        for k in order:
+            got.setdefault(k, []).append(tree_to_json(shared.scan(d, k)))
+        for k in sorted(set(order)):
+            env = dict(os.environ, PYTHONPATH=SRC, PYTHONHASHSEED="0")
+            pr = subprocess.run([sys.executable, "-c", code2, d.hex(), str(k)], env=env, stdout=subprocess.PIPE, stderr=subprocess.PIPE, timeout=300)
+            want = pr.stdout.decode().strip()
+            ctx.evals += 1
+            for g in got[k]:
+                if g != want:
+                    ctx.violation("scan-history-depth", [d, k], f"scan(depth={k}) after scans with other depth limits {order} differs from the same scan in a fresh process")
+                    break
     # threads sharing one scanner
     results = [[None] * len(inputs) for _ in range(8)]
 
